@@ -120,9 +120,17 @@ pub fn parse_op(s: &str) -> Op {
 type Ref = BTreeSet<Vec<u32>>;
 pub struct Fam<T: PT> { t: Vec<T>, r: Vec<Ref>, c: Vec<T::Child>, cr: Vec<Ref> }
 
-/// the monotone column maps used by `mapped`: code bit i set => column i is mapped by x -> x + 10 for x in {0, 1} (2 is outside the domain)
-fn colmap() -> PrefixTree2 { let mut m = PrefixTree2::new(); m.insert([0, 10]); m.insert([1, 11]); m }
-fn mapval(x: u32) -> Option<u32> { if x <= 1 { Some(x + 10) } else { None } }
+/// the column maps used by `mapped`: base-4 digit i of the code selects the map of column i --
+/// 0: none; 1: injective x -> x + 10 on {0, 1}; 2: COLLAPSING 0 -> 5, 1 -> 5; 3: a graph with several images, 0 -> {7, 9}, 1 -> {9} (the smallest is taken);
+/// 2 is outside every domain
+fn colmap(kind: u32) -> Option<PrefixTree2> {
+    let mut m = PrefixTree2::new();
+    match kind { 0 => return None, 1 => { m.insert([0, 10]); m.insert([1, 11]); }, 2 => { m.insert([0, 5]); m.insert([1, 5]); }, _ => { m.insert([0, 9]); m.insert([0, 7]); m.insert([1, 9]); } }
+    Some(m)
+}
+fn mapval(kind: u32, x: u32) -> Option<u32> {
+    match kind { 0 => Some(x), 1 => if x <= 1 { Some(x + 10) } else { None }, 2 => if x <= 1 { Some(5) } else { None }, _ => match x { 0 => Some(7), 1 => Some(9), _ => None } }
+}
 
 fn check_tree<T: PT>(t: &T, r: &Ref, what: &str, vals: u32) -> Result<(), String> {
     let it = t.iter_();
@@ -160,10 +168,11 @@ fn step<T: PT>(f: &mut Fam<T>, op: &Op, vals: u32) -> Result<(), String> {
         Op::InsR(s, k, c) => { if T::N >= 1 { f.t[*s].ins_restr(*k, &f.c[*c]); for x in f.cr[*c].iter() { let mut v = vec![*k]; v.extend(x); f.r[*s].insert(v); } } }
         Op::RemR(s, k, c) => { if T::N >= 1 { f.t[*s].rem_restr(*k, &f.c[*c]); for x in f.cr[*c].iter() { let mut v = vec![*k]; v.extend(x); f.r[*s].remove(&v); } } }
         Op::Mapped(s, code, d) => {
-            let ms: Vec<Option<PrefixTree2>> = (0..T::N.max(1)).map(|i| if code >> i & 1 == 1 { Some(colmap()) } else { None }).collect();
+            let kind = |i: usize| -> u32 { (code >> (2 * i)) & 3 };
+            let ms: Vec<Option<PrefixTree2>> = (0..T::N.max(1)).map(|i| colmap(kind(i))).collect();
             let m = f.t[*s].mapped_(&ms);
             let mut w = Ref::new();
-            'x: for x in f.r[*s].iter() { let mut y = vec![]; for (i, v) in x.iter().enumerate() { if code >> i & 1 == 1 { match mapval(*v) { Some(z) => y.push(z), None => continue 'x } } else { y.push(*v) } } w.insert(y); }
+            'x: for x in f.r[*s].iter() { let mut y = vec![]; for (i, v) in x.iter().enumerate() { match mapval(kind(i), *v) { Some(z) => y.push(z), None => continue 'x } } w.insert(y); }
             f.t[*d] = m; f.r[*d] = w;
         }
     }
@@ -218,7 +227,12 @@ fn alphabet(n: usize, vals: u32) -> Vec<Op> {
         for t in cts.iter() { a.push(Op::CIns(0, t.clone())); }
         a.push(Op::CClear(0));
         for k in 0..vals.min(2) { a.push(Op::InsR(0, k, 0)); a.push(Op::RemR(0, k, 0)); }
-        a.push(Op::Mapped(0, 0, 2)); a.push(Op::Mapped(0, 1, 2)); a.push(Op::Mapped(0, 2, 0)); a.push(Op::Mapped(0, 3, 2));
+        // no map; injective on column 0; injective on column 1 (into slot 0); injective on columns 0 and 1;
+        // collapsing on the second-to-last column; collapsing on column 0; several images on the last column; collapsing everywhere
+        let last = (n - 1) as u32; let pen = n.saturating_sub(2) as u32;
+        a.push(Op::Mapped(0, 0, 2)); a.push(Op::Mapped(0, 1, 2)); a.push(Op::Mapped(0, 1 << 2, 0)); a.push(Op::Mapped(0, 1 | (1 << 2), 2));
+        a.push(Op::Mapped(0, 2 << (2 * pen), 2)); a.push(Op::Mapped(0, 2, 2)); a.push(Op::Mapped(0, 3 << (2 * last), 2));
+        a.push(Op::Mapped(0, (0..n as u32).map(|i| 2 << (2 * i)).sum(), 2));
     } else { a.push(Op::Mapped(0, 0, 2)); }
     a
 }
